@@ -41,10 +41,13 @@ PRED = {"Doc": {"hasAuthor": "author", "hasDate": "date", "hasDocVersion": "vers
                  "hasUncertainty": "uncertainty", "hasReference": "reference",
                  "hasValueOrigin": "value_origin", "hasId": "id"}}
 VAR_KIND = {"d": "Doc", "s": "Sec", "p": "Prop"}
-BAD = set(',():"\\\'\n\r\t<>')
+BAD = set(',():"')       # the query syntax characters the property excludes; everything else is a value
 
 _W = st.sampled_from(["alpha", "beta", "gamma", "delta", "rec 1", "x-y", "Zeta", "ünï", "v1.2", "a_b", "42", "7",
-                      "a{0}b", "{x}", "c}d", "{", "50%", "a;b", "q?", "$1", "a b  c"])
+                      "a{0}b", "{x}", "c}d", "{", "50%", "a;b", "q?", "$1", "a b  c",
+                      # characters that need escaping inside a quoted SPARQL string
+                      "back\\slash", "C:\\new\\table", "it's", "line1\nline2", "tab\there", "a<b>c", "cr\rx",
+                      "end\\"])
 
 
 def ok_value(v):
@@ -189,6 +192,14 @@ class Model(object):
 # ------------------------------------------------------------------------------------
 # parsing the finder output
 
+_UNESC = {"n": "\n", "r": "\r", "t": "\t", '"': '"', "'": "'", "\\": "\\", "b": "\b", "f": "\f"}
+
+
+def sparql_unescape(text):
+    """The value a quoted SPARQL string stands for (SPARQL 1.1, 19.7 ECHAR)."""
+    return re.sub(r"\\(.)", lambda m: _UNESC.get(m.group(1), m.group(0)), text)
+
+
 def parse_query(text):
     """SPARQL text of one block -> frozenset of (kind, attr, value-or-tuple)."""
     combo = []
@@ -196,7 +207,7 @@ def parse_query(text):
     for line in text.splitlines():
         line = line.strip()
         m = re.search(r"\?([dsp])\s+odml:(has\w+)\s", line)
-        q = re.findall(r'"((?:[^"\\]|\\.)*)"', line)
+        q = [sparql_unescape(x) for x in re.findall(r'"((?:[^"\\]|\\.)*)"', line)]
         if m and m.group(2) in PRED[VAR_KIND[m.group(1)]] and q:
             combo.append((VAR_KIND[m.group(1)], PRED[VAR_KIND[m.group(1)]][m.group(2)], q[0]))
             continue
